@@ -385,13 +385,13 @@ func run(a []string) int {
 			"inconclusive":        inconcl,
 			"batches":             len(batches),
 		},
-		"assumptions":            p.Assumptions,
-		"wall_s":                 time.Since(start).Seconds(),
-		"violations":             len(real),
-		"violations_dropped":     violDropped,
+		"assumptions":             p.Assumptions,
+		"wall_s":                  time.Since(start).Seconds(),
+		"violations":              len(real),
+		"violations_dropped":      violDropped,
 		"known_findings_observed": knownKeys,
-		"verdict":                verdict,
-		"floor_misses":           floorMiss,
+		"verdict":                 verdict,
+		"floor_misses":            floorMiss,
 	}
 	if samples == nil {
 		ev["coverage"].(map[string]any)["samples"] = []any{}
